@@ -385,6 +385,10 @@ package bgv
 //@   dyn op1 *big.Int
 //@   case len(op0.Value) == 2 && len(opOut.Value) == 3
 //@   case len(op0.Value) == 2 && len(opOut.Value) == 2
+//@   requires len(op0.Value[0].Coeffs) >= 1 && len(opOut.Value[0].Coeffs) >= 1
+//@   let lin = old(len(op0.Value[0].Coeffs))
+//@   let lout = old(len(opOut.Value[0].Coeffs))
+//@   ensures implies(isnil(err), len(opOut.Value[0].Coeffs) == ite(lin <= lout, lin, lout) && len(opOut.Value[1].Coeffs) == ite(lin <= lout, lin, lout))
 //@   ensures implies(isnil(err) && old(len(opOut.Value)) == 3, len(opOut.Value) == 3 && val(opOut.Value[2]) == old(val(opOut.Value[2])))
 //@   ensures implies(isnil(err) && old(len(opOut.Value)) == 2, len(opOut.Value) == 2)
 
